@@ -251,8 +251,13 @@ func encodePacket(w io.Writer, u *[]byte, b []byte, s string) (int, error) {
 		return 0, io.ErrShortWrite
 	}
 	for i := 0; i < r; i++ {
-		if len(e[i]) > 256 {
-			e[i] = e[i][:250]
+		if len(e[i]) == 0 {
+			// An empty label ("a..b", trailing dot) would end the name early.
+			continue
+		}
+		if len(e[i]) > 63 {
+			// A DNS label holds at most 63 bytes.
+			e[i] = e[i][:63]
 		}
 		(*u)[0] = byte(len(e[i]))
 		var (
